@@ -27,7 +27,7 @@ ASSUMPTIONS = [
     "what a real backend serialises is outside (C19)",
 ]
 TRUSTED = ["CPython asyncio (real, virtual clock)", "pydantic TaskiqResult construction (real)", "vt.sym explorer", "recording stubs"]
-BOUNDS = {"messages": "1 (all configurations), 2 concurrent (reduced)", "timer ticks": "<= 6", "timeout label": "5 s"}
+BOUNDS = {"messages": "1 (all configurations); 2 concurrent (2 outcomes quick / all 6 thorough); 3 concurrent (thorough, reduced)", "timer ticks": "<= 6", "timeout label": "5 s"}
 REQUIRED_COVERS = ["return", "raise_exc", "raise_base", "no_result", "cancelled", "timeout", "sync", "async", "backend_failed", "timeout_label_unused"]
 
 
@@ -36,11 +36,15 @@ def cases(tier: str) -> List[Any]:
     for ack in _cb.ACKS if tier == "thorough" else ("when_saved", "when_received"):
         for target in ("async", "sync"):
             out.append({"n": 1, "ack": ack, "target": target, "async_ack": False})
-    pair_out = ("return", "raise_exc") if tier == "quick" else ("return", "raise_exc", "no_result", "raise_base")
+    pair_out = ("return", "raise_exc") if tier == "quick" else _cb.OUTCOMES
     for o0 in pair_out:
         for bf0 in (False, True):
             out.append({"n": 2, "ack": "when_saved", "async_ack": False, "target": "async", "outcome0": o0, "backend_fail0": bf0,
                         "timeout_label0": False, "timeout_label1": False, "pair_outcomes": pair_out})
+            if tier == "thorough" and o0 in ("return", "raise_exc", "timeout"):
+                out.append({"n": 3, "ack": "when_saved", "async_ack": False, "target": "async", "outcome0": o0, "backend_fail0": bf0,
+                            "timeout_label0": False, "timeout_label1": False, "timeout_label2": False, "backend_fail2": False,
+                            "pair_outcomes": ("return", "raise_exc", "no_result")})
     return out
 
 
@@ -80,8 +84,9 @@ def check_result(c: sym.Ctx, lab: Any, i: int, spec: Dict[str, Any]) -> None:
 def harness(c: sym.Ctx, case: Dict[str, Any]) -> None:
     spec = {k: v for k, v in case.items() if k not in ("n", "pair_outcomes")}
     n = case["n"]
-    if n == 2:
-        spec["outcome1"] = c.choose(list(case["pair_outcomes"]), "outcome1")
+    if n >= 2:
+        for k in range(1, n):
+            spec[f"outcome{k}"] = c.choose(list(case["pair_outcomes"]), f"outcome{k}")
     spec["mws"] = []
     lab = _cb.run(c, spec, n_msgs=n)
     c.cover(spec["target"])
